@@ -8,9 +8,10 @@ Open Scope N_scope.
 
 Definition mk (m : N) (w : who) (h : hook) : entry := {| en_mod := m; en_who := w; en_hook := h |}.
 
-(* the callbacks (everything except the records of sends and of the shutdown request) *)
+(* the callbacks (everything except the records of sends, of the shutdown request and of
+   the callback's panic) *)
 Definition is_call (e : entry) : bool :=
-  match en_hook e with HSched _ _ | HSend _ _ | HShut _ => false | _ => true end.
+  match en_hook e with HSched _ _ | HSend _ _ | HShut _ | HPanic => false | _ => true end.
 Definition calls (l : list entry) : list entry := filter is_call l.
 
 (* ---- the specification of one bracket ---- *)
@@ -51,10 +52,24 @@ Definition down_shape (m : N) (els : list elem) : list entry :=
 Definition shape (m t : N) (els : list elem) (k : kind) (woken : bool) : list entry :=
   up_shape m t els (kind_msg k) ++ handler_shape m t els k ++ task_shape m t woken ++ down_shape m els.
 
-(* a bracket is well formed for a module with configuration [c] *)
+(* the message still travelling after the elements [pre] *)
+Definition cur_msg (x0 : option N) (pre : list elem) : option N :=
+  match x0 with Some x => if consumed pre then None else Some (pay x pre) | None => None end.
+
+(* the callback of this bracket ends in a (caught) panic *)
+Definition brk_panics (c : modcfg) (b : brk) : bool :=
+  panics (m_handler c) (b_kind b) (cur_msg (kind_msg (b_kind b)) (m_stack c)).
+
+(* a bracket is well formed for a module with configuration [c]: its callbacks have the
+   shape above, all its entries belong to one module, and when the callback panics (caught)
+   the bracket is closed all the same: what follows the panic is the poll of a woken task
+   and event_end of every element in reverse order *)
 Definition brk_ok (c : modcfg) (b : brk) : Prop :=
   calls (b_log b) = shape (b_mod b) (b_time b) (m_stack c) (b_kind b) (b_woken b) /\
-  Forall (fun e => en_mod e = b_mod b) (b_log b).
+  Forall (fun e => en_mod e = b_mod b) (b_log b) /\
+  (brk_panics c b = true ->
+   exists pre post, b_log b = pre ++ mk (b_mod b) Handler HPanic :: post /\
+     calls post = task_shape (b_mod b) (b_time b) (b_woken b) ++ down_shape (b_mod b) (m_stack c)).
 
 (* ---- log extension ---- *)
 Definition Ext (m : N) (s s' : es) (sk : list entry) : Prop :=
@@ -121,10 +136,6 @@ Proof. unfold consumed. rewrite existsb_app. cbn [existsb]. rewrite orb_false_r.
 Lemma pay_snoc x pre e : pay x (pre ++ [e]) = pay x pre + modk e.
 Proof. unfold pay. rewrite fold_left_app. reflexivity. Qed.
 
-(* the message still travelling after the elements [pre] *)
-Definition cur_msg (x0 : option N) (pre : list elem) : option N :=
-  match x0 with Some x => if consumed pre then None else Some (pay x pre) | None => None end.
-
 Lemma cur_msg_snoc x0 pre e :
   cur_msg x0 (pre ++ [e]) = match cur_msg x0 pre with Some x => apply_act (el_act e) x | None => None end.
 Proof.
@@ -183,6 +194,12 @@ Proof.
 Qed.
 
 (* ---- the callback and the task ---- *)
+Lemma Ext_panic_if b m s : Ext m s (panic_if b m s) [].
+Proof.
+  unfold panic_if. destruct b; [|apply Ext_refl].
+  exists [mk m Handler HPanic]. cbn [lg say]. repeat split. repeat constructor.
+Qed.
+
 Lemma handler_part_spec now m h els k s :
   Ext m s (handler_part now m h k (cur_msg (kind_msg k) els) s) (handler_shape m now els k).
 Proof.
@@ -190,15 +207,17 @@ Proof.
   - destruct (consumed els); [apply Ext_refl|].
     set (s1 := emits now m Handler (h_msg h) (say m Handler (HHandle (pay x els) now) s)).
     assert (E1 : Ext m s s1 [mk m Handler (HHandle (pay x els) now)]) by (apply Ext_say_emits; reflexivity).
-    destruct (h_extra h) as [|d|trig r]; try exact E1.
+    assert (EP : forall b, Ext m s (panic_if b m s1) [mk m Handler (HHandle (pay x els) now)])
+      by (intros b; eapply Ext_step; [exact E1|apply Ext_panic_if|reflexivity]).
+    destruct (h_extra h) as [|d|trig r|site trig]; try apply EP.
     destruct (pay x els =? trig); [|exact E1].
     destruct E1 as (suf & Hl & Hk & Hf).
     exists (suf ++ [mk m Handler (HShut r)]). cbn [lg say]. rewrite Hl, app_assoc. split; [reflexivity|].
     split; [rewrite calls_app, Hk; reflexivity|].
     apply Forall_app; split; [exact Hf|repeat constructor].
   - apply Ext_refl.
-  - apply Ext_say_emits. reflexivity.
-  - apply Ext_say_emits. reflexivity.
+  - eapply Ext_step; [apply (Ext_say_emits now m Handler (HSimStart st now)); reflexivity|apply Ext_panic_if|reflexivity].
+  - eapply Ext_step; [apply (Ext_say_emits now m Handler (HSimEnd now)); reflexivity|apply Ext_panic_if|reflexivity].
 Qed.
 
 Lemma poll_tasks_spec now m h woken s : Ext m s (poll_tasks now m h woken s) (task_shape m now woken).
@@ -216,9 +235,52 @@ Proof.
   eapply Ext_trans; [apply poll_tasks_spec|]. apply downstream_spec.
 Qed.
 
+(* a panicking callback: its part of the log ends with the panic record *)
+Lemma handler_part_panic now m h k msg s :
+  panics h k msg = true -> exists suf, lg (handler_part now m h k msg s) = lg s ++ suf ++ [mk m Handler HPanic].
+Proof.
+  intros Hp.
+  assert (G : forall s1 suf, lg s1 = lg s ++ suf -> lg (panic_if true m s1) = lg s ++ suf ++ [mk m Handler HPanic])
+    by (intros s1 suf H1; cbn [panic_if lg say]; rewrite H1, app_assoc; reflexivity).
+  destruct k as [x| |st|]; cbn [handler_part].
+  - unfold panics in Hp. destruct (h_extra h) as [|d|trig r|site trig] eqn:Hx; try discriminate.
+    destruct msg as [y|]; [|rewrite andb_false_r in Hp; discriminate].
+    assert (Hp' : panics h (KMsg x) (Some y) = true) by (unfold panics; rewrite Hx; exact Hp). rewrite Hp'.
+    destruct (Ext_say_emits now m Handler (HHandle y now) (h_msg h) s eq_refl) as (suf & Hl & _ & _).
+    exists suf. apply G, Hl.
+  - unfold panics in Hp. destruct (h_extra h); discriminate.
+  - rewrite Hp. destruct (Ext_say_emits now m Handler (HSimStart st now) (h_start h) s eq_refl) as (suf & Hl & _ & _).
+    exists suf. apply G, Hl.
+  - rewrite Hp. destruct (Ext_say_emits now m Handler (HSimEnd now) (h_end h) s eq_refl) as (suf & Hl & _ & _).
+    exists suf. apply G, Hl.
+Qed.
+
+Lemma bracket_panic_spec now m c woken k s :
+  panics (m_handler c) k (cur_msg (kind_msg k) (m_stack c)) = true ->
+  exists pre post, lg (bracket now m c woken k s) = lg s ++ pre ++ mk m Handler HPanic :: post /\
+                   calls post = task_shape m now woken ++ down_shape m (m_stack c).
+Proof.
+  intros Hp. unfold bracket.
+  destruct (upstream_shape now m (m_stack c) (kind_msg k) s) as [E1 M1].
+  change (match k with KMsg x => Some x | _ => None end) with (kind_msg k).
+  destruct (incoming_upstream now m 0 (m_stack c) (kind_msg k) s) as [msg s1]. cbn [fst snd] in E1, M1. subst msg.
+  destruct E1 as (u & Hu & _ & _).
+  destruct (handler_part_panic now m (m_handler c) k _ s1 Hp) as (hs & Hh).
+  set (s2 := handler_part now m (m_handler c) k (cur_msg (kind_msg k) (m_stack c)) s1) in *.
+  assert (E34 : Ext m s2 (incoming_downstream now m 0 (m_stack c) (poll_tasks now m (m_handler c) woken s2))
+                    (task_shape m now woken ++ down_shape m (m_stack c)))
+    by (eapply Ext_trans; [apply poll_tasks_spec|apply downstream_spec]).
+  destruct E34 as (post & Hl & Hk & _).
+  exists (u ++ hs), post. split; [|exact Hk].
+  rewrite Hl, Hh, Hu, <- !app_assoc. reflexivity.
+Qed.
+
 Theorem run_bracket_ok now m c woken k s : brk_ok c (snd (run_bracket now m c woken k s)).
 Proof.
-  unfold run_bracket, brk_ok. cbn [snd b_log b_mod b_time b_kind b_woken].
-  destruct (bracket_spec now m c woken k {| lg := []; buf := buf s; bud := bud s; shut := shut s |}) as (suf & Hl & Hk & Hf).
-  cbn [lg app] in Hl. rewrite Hl. split; assumption.
+  unfold run_bracket, brk_ok, brk_panics. cbn [snd b_log b_mod b_time b_kind b_woken].
+  set (s0 := {| lg := []; buf := buf s; bud := bud s; shut := shut s; dead := dead s |}).
+  destruct (bracket_spec now m c woken k s0) as (suf & Hl & Hk & Hf).
+  cbn [lg app s0] in Hl. rewrite Hl. split; [exact Hk|split; [exact Hf|]].
+  intros Hp. destruct (bracket_panic_spec now m c woken k s0 Hp) as (pre & post & Hl' & Hc).
+  exists pre, post. rewrite <- Hl, Hl'. split; [reflexivity|exact Hc].
 Qed.
